@@ -625,7 +625,7 @@ class LinearModel(Model):
     @property
     def T(self):
         """Transpose of linear model. Returns a new linear model acting as the transpose."""
-        transpose = LinearModel(self.adjoint,self.forward,self.domain_geometry,self.range_geometry)
+        transpose = LinearModel(self._adjoint_func,self._forward_func,self.domain_geometry,self.range_geometry)
         if self._matrix is not None:
             transpose._matrix = self._matrix.T
         return transpose
